@@ -1,4 +1,298 @@
 package sim
 
-// LivenessSuffix is the fault-free suffix and oracle of C15 (see live.go).
-func (s *Sim) LivenessSuffix() {}
+import (
+	"fmt"
+	"sort"
+
+	"go.etcd.io/raft/v3"
+	pb "go.etcd.io/raft/v3/raftpb"
+	"go.etcd.io/raft/v3/tracker"
+)
+
+// LivenessSuffix is the fault-free suffix of C15 followed by its oracle
+// (bounded liveness): all members of the committed configuration run, removed
+// nodes are stopped, every message is delivered FIFO, snapshot outcomes are
+// reported, ticks arrive round-robin with the network drained in between.
+func (s *Sim) LivenessSuffix() {
+	s.begin("LivenessSuffix")
+	s.classifySuffixStart()
+	s.Net.Blocked = map[[2]uint64]bool{}
+	// un-delivered snapshots: report failure
+	for k := len(s.Net.Owed) - 1; k >= 0; k-- {
+		if !s.Net.Owed[k].Delivered {
+			found := false
+			for _, f := range s.Net.Pool {
+				if f.M.GetType() == pb.MsgSnap && f.From == s.Net.Owed[k].Leader && f.To == s.Net.Owed[k].To {
+					found = true
+				}
+			}
+			if !found {
+				s.ReportSnap(k, true)
+			}
+		}
+	}
+	maxET := 0
+	for _, id := range s.IDs {
+		n := s.Nodes[id]
+		n.Disk.Mode = SnapFresh
+		n.Disk.TempUnavailable = false
+		n.Opts.LazySync = false
+		if n.Opts.ElectionTick > maxET {
+			maxET = n.Opts.ElectionTick
+		}
+	}
+	half := 30 * maxET
+	if !s.runSuffixRounds(half, func() bool { return s.convergedBasic() == "" }) {
+		// not yet converged: keep going, the oracle decides at the end
+	}
+	// second half: fresh proposals and reads at every member
+	var props []*Proposal
+	var reads []string
+	for _, n := range s.suffixMembers() {
+		if !n.Up {
+			continue
+		}
+		leaderLocal := n.RN.BasicStatus().RaftState == raft.StateLeader
+		p := s.Propose(n, 8)
+		if p.Err == nil && leaderLocal {
+			props = append(props, p)
+		}
+		if s.Mon.allSafe || !n.Opts.LeaseRead {
+			reads = append(reads, s.ReadIndex(n, ""))
+		}
+	}
+	done := func() bool {
+		return s.convergedBasic() == "" && s.suffixObligations(props, reads) == ""
+	}
+	s.runSuffixRounds(half, done)
+	if s.Stats.has("conf.two_voter_shrink") {
+		s.Stats.inc("live.exempt_two_voter")
+		return
+	}
+	if msg := s.convergedBasic(); msg != "" {
+		s.Mon.viol([]string{"C15"}, "converges", "c15.not_converged", "after the fault-free suffix (%d tick rounds): %s", 2*half, msg)
+		return
+	}
+	if msg := s.suffixObligations(props, reads); msg != "" {
+		s.Mon.viol([]string{"C15"}, "obligations_met", "c15.obligation_unmet", "after the fault-free suffix (%d tick rounds): %s", 2*half, msg)
+	}
+}
+
+// suffixMembers returns the nodes that are members of the latest committed
+// configuration.
+func (s *Sim) suffixMembers() []*Node {
+	conf := s.Reg.latestConf()
+	var out []*Node
+	for _, id := range s.IDs {
+		if conf.IsMember(id) {
+			out = append(out, s.Nodes[id])
+		}
+	}
+	return out
+}
+
+// enforceMembership restarts down members and stops non-members.
+func (s *Sim) enforceMembership() {
+	conf := s.Reg.latestConf()
+	for _, id := range s.IDs {
+		n := s.Nodes[id]
+		member := conf.IsMember(id)
+		switch {
+		case member && !n.Up:
+			_, hi := s.restartRange(n)
+			s.Restart(n, hi)
+		case !member && n.Up:
+			s.begin("Stop(%d) (not in the committed configuration)", n.ID)
+			s.Mon.onCrash(n)
+			s.crashInternal(n)
+		}
+	}
+}
+
+func (s *Sim) runSuffixRounds(rounds int, done func() bool) bool {
+	stable := 0
+	for r := 0; r < rounds; r++ {
+		s.enforceMembership()
+		s.stabilize(100)
+		for _, n := range s.suffixMembers() {
+			if !n.Up {
+				continue
+			}
+			before := n.RN.BasicStatus().RaftState
+			s.Step++
+			s.tick(n)
+			if n.Up {
+				after := n.RN.BasicStatus().RaftState
+				if after != before && (after == raft.StateCandidate || after == raft.StatePreCandidate) {
+					// raft re-randomizes its timeout on every campaign
+					n.Opts.Timeout = s.D.Int(n.Opts.ElectionTick, 2*n.Opts.ElectionTick-1, "suffixtimeout")
+				}
+			}
+			s.enforceMembership()
+			s.stabilize(100)
+		}
+		if done() {
+			stable++
+			if stable >= 2 {
+				return true
+			}
+		} else {
+			stable = 0
+		}
+	}
+	return false
+}
+
+// convergedBasic returns "" if the group has converged, else what is wrong.
+func (s *Sim) convergedBasic() string {
+	members := s.suffixMembers()
+	if len(members) == 0 {
+		return ""
+	}
+	var leader *raft.VerifState
+	states := map[uint64]*raft.VerifState{}
+	for _, n := range members {
+		if !n.Up {
+			return fmt.Sprintf("member %d is down", n.ID)
+		}
+		st := n.RN.VerifState()
+		states[n.ID] = &st
+		if st.State == raft.StateLeader {
+			if leader != nil {
+				return fmt.Sprintf("two leaders: %d (term %d) and %d (term %d)", leader.ID, leader.Term, st.ID, st.Term)
+			}
+			leader = &st
+		}
+	}
+	if leader == nil {
+		return "no member is leader"
+	}
+	ids := make([]uint64, 0, len(states))
+	for id := range states {
+		ids = append(ids, id)
+	}
+	sort.Slice(ids, func(i, j int) bool { return ids[i] < ids[j] })
+	for _, id := range ids {
+		st := states[id]
+		n := s.Nodes[id]
+		if st.Term != leader.Term || st.Lead != leader.ID {
+			return fmt.Sprintf("member %d has (term %d, lead %d), leader is %d at term %d", id, st.Term, st.Lead, leader.ID, leader.Term)
+		}
+		if st.LastIndex != leader.LastIndex || st.LastTerm != leader.LastTerm {
+			return fmt.Sprintf("member %d log ends at (%d,%d), leader's at (%d,%d)", id, st.LastIndex, st.LastTerm, leader.LastIndex, leader.LastTerm)
+		}
+		if st.Commit != st.LastIndex || st.Applied != st.LastIndex || n.SM.Applied != st.LastIndex {
+			return fmt.Sprintf("member %d: commit %d applied %d (app %d) last %d", id, st.Commit, st.Applied, n.SM.Applied, st.LastIndex)
+		}
+		if st.UnstableLen != 0 || st.PendingSnapIndex != 0 {
+			return fmt.Sprintf("member %d still has %d unstable entries / pending snapshot %d", id, st.UnstableLen, st.PendingSnapIndex)
+		}
+		if n.Opts.Async && (len(n.AppendQ)+len(n.ApplyQ)+len(n.SelfQ[0])+len(n.SelfQ[1]) > 0) {
+			return fmt.Sprintf("member %d has queued storage work", id)
+		}
+		if len(st.VotersOutgoing) > 0 && st.AutoLeave {
+			return fmt.Sprintf("member %d is still in an auto-leave joint config %s", id, confOfState(st))
+		}
+		if h, ok := s.Reg.chainAt(st.LastIndex); ok && h != n.SM.Hash {
+			return fmt.Sprintf("member %d state machine differs at %d", id, st.LastIndex)
+		}
+	}
+	if leader.LeadTransferee != 0 {
+		return fmt.Sprintf("leader %d still transferring to %d", leader.ID, leader.LeadTransferee)
+	}
+	for _, pr := range leader.Progress {
+		if _, isM := states[pr.ID]; !isM {
+			continue
+		}
+		if pr.State != tracker.StateReplicate || pr.Match != leader.LastIndex {
+			return fmt.Sprintf("leader %d: progress of %d is %v match %d (last %d)", leader.ID, pr.ID, pr.State, pr.Match, leader.LastIndex)
+		}
+		if pr.ID != leader.ID && pr.Paused && pr.InflightCount == 0 {
+			return fmt.Sprintf("leader %d: replication to %d is paused", leader.ID, pr.ID)
+		}
+	}
+	return ""
+}
+
+// suffixObligations: proposals accepted by the leader in the second half are
+// committed and applied everywhere; reads issued then were answered.
+func (s *Sim) suffixObligations(props []*Proposal, reads []string) string {
+	for _, p := range props {
+		keys := s.Mon.propEntry[p.Seq]
+		if len(keys) == 0 {
+			return fmt.Sprintf("proposal p%d accepted by leader %d is in no log", p.Seq, p.Node)
+		}
+		var at uint64
+		for _, key := range keys {
+			if cr := s.Reg.committed[key[0]]; cr != nil && cr.Term == key[1] {
+				at = key[0]
+			}
+		}
+		if at == 0 {
+			return fmt.Sprintf("proposal p%d (entries %v) accepted by leader %d is not committed", p.Seq, keys, p.Node)
+		}
+		for _, n := range s.suffixMembers() {
+			if n.SM.Applied < at {
+				return fmt.Sprintf("proposal p%d at index %d not applied by member %d (applied %d)", p.Seq, at, n.ID, n.SM.Applied)
+			}
+		}
+	}
+	// Reads are issued for coverage only: C15 does not list ReadIndex among
+	// the things that must complete (observed: a ReadIndex at a sole voter in
+	// an explicit joint config {1}&&{1} is never answered, because read
+	// confirmation is only re-evaluated on a heartbeat response).
+	for _, ctx := range reads {
+		if r := s.Mon.reads[ctx]; r != nil && r.Answered == 0 {
+			s.Stats.inc("live.read_unanswered")
+		}
+	}
+	return ""
+}
+
+// classifySuffixStart records what kind of state the suffix starts from.
+func (s *Sim) classifySuffixStart() {
+	leaders := 0
+	for _, id := range s.IDs {
+		n := s.Nodes[id]
+		if !n.Up {
+			s.Stats.inc("live.start_node_down")
+			continue
+		}
+		st := n.RN.VerifState()
+		if st.State == raft.StateLeader {
+			leaders++
+			if st.LeadTransferee != 0 {
+				s.Stats.inc("live.start_pending_transfer")
+			}
+			for _, pr := range st.Progress {
+				switch {
+				case pr.State == tracker.StateSnapshot:
+					s.Stats.inc("live.start_follower_in_snapshot")
+				case pr.Paused && pr.ID != st.ID:
+					s.Stats.inc("live.start_follower_paused")
+				}
+			}
+		}
+		if st.LastIndex > st.Commit {
+			s.Stats.inc("live.start_uncommitted_tail")
+		}
+		if len(st.VotersOutgoing) > 0 {
+			s.Stats.inc("live.start_joint")
+		}
+		if st.QueuedReads > 0 {
+			s.Stats.inc("live.start_queued_reads")
+		}
+		if st.UnstableLen > 0 {
+			s.Stats.inc("live.start_unstable_entries")
+		}
+	}
+	switch {
+	case leaders == 0:
+		s.Stats.inc("live.start_no_leader")
+	case leaders > 1:
+		s.Stats.inc("live.start_two_leaders")
+	}
+	if len(s.Net.Blocked) > 0 {
+		s.Stats.inc("live.start_partitioned")
+	}
+}
